@@ -357,6 +357,31 @@ PROPS["C07"]["outside"] = [o for o in PROPS["C07"]["outside"] if "handle_append_
     "the conflict-aware append itself on a non-empty log (BufferedRaftLog::filter_out_conflicts_and_append: not decidable, DESIGN 2c) -- the wiring harness records the call",
     "that the leader's log really contains the entries it reports as committed (leader-side invariants)"]
 
+# C29: the leader's client-write response bookkeeping (verbatim slices of three LeaderState methods)
+_c29_stubs = ["function slices compiled as methods of a struct holding exactly the fields they touch (pending_client_writes, pending_write_apply, write_propose_times, pending_reads, term); "
+              "std BTreeMap / HashMap -> small array models with the API subset used (split_off, by-value iteration in key order, range(..=k), get/insert/remove/clear); "
+              "MaybeCloneOneshotSender -> recording sender (counts and remembers what each client was sent); ClientResponse / ErrorCode / ApplyResult -> structural stand-ins; "
+              "metrics::histogram!, trace!, Instant::elapsed, execute_pending_reads, check_and_trigger_snapshot -> no-ops"]
+prop("C29",
+     "SCOPED to the leader's response bookkeeping AFTER a write has been registered: (commit drain) a pending batch is answered only once the commit index has reached its end index; writes "
+     "that do not wait for the state machine get exactly one success, writes that do are parked under their OWN log index and get nothing yet; batches beyond the commit index stay pending. "
+     "(apply results) a parked write is answered exactly once, when and only when a result for its own index arrives, with success iff that result succeeded and CAS-failure otherwise; "
+     "results without a waiter answer nobody. (step-down) every still-pending write gets exactly one error and nothing stays registered.",
+     ["d-engine-core/src/raft_role/leader_state.rs"],
+     ["how a write gets registered (batch start index = last_entry_id+1, keying by end index in execute_and_process_raft_rpc: HashMap/BTreeMap/async on a live LeaderState, not executable)",
+      "waiters parked in pending_write_apply at step-down (drain_pending_writes_with_error does not touch them; where they are failed is role-level code)",
+      "deadline expiry; more than two batches / three waiters / two apply results"],
+     [TRUST_TOOL, "the slice environment (kani/shadow/src/cshim.rs) is faithful to std BTreeMap / HashMap / the oneshot sender for the use made of them"],
+     [H(n, "gen_client::h", crate="shadow", timeout=900, common=False, loops=6,
+        functions=[f], stubs=_c29_stubs, assumptions=a, bounds=b)
+      for (n, f, a, b) in (
+          ("c29_commit_drain", "LeaderState::drain_pending_client_writes (verbatim function slice)", ["two pending batches: entries [a, a+1] then [a+2]"],
+           "start index < 1000 symbolic, wait_for_apply flags symbolic, new commit index full width"),
+          ("c29_apply_results_to_responses", "LeaderState::handle_apply_completed (verbatim function slice; async fn without awaits, de-sugared)",
+           ["three waiters at consecutive indexes; the two apply results have distinct indexes (one result per log entry)"],
+           "waiter index < 1000 symbolic; result indexes full width, outcomes symbolic"),
+          ("c29_step_down_drain", "LeaderState::drain_pending_writes_with_error (verbatim function slice)", ["two pending batches (three writes)"], "flags symbolic"))])
+
 # C05: the last log id that feeds the election restriction is right after compaction (purge boundary)
 PROPS["C05"]["harnesses"] += [h_c19_pu] + [
     H(f"c05_scratch_request_keeps_agreeing_entries_{n}", "gen_brl::h", crate="shadow", timeout=900, common=False, loops=7,
